@@ -4,6 +4,7 @@ CONSTANTS
   TupW = 1
 INVARIANT TupleLaw
 INVARIANT ArrayLaw
+INVARIANT EitherLaw
 INVARIANT FrozenLaw
 INVARIANT FnLaw
 INVARIANT QubitLaw
